@@ -45,6 +45,15 @@ func decorators() []decorator {
 			file: file, line: strconv.Itoa(int(l)), function: fn,
 			apply: func(e error) error { return psqlerr.WithSource(e, file, l, fn) }})
 	}
+	// decorations whose value equals the default / is empty: the OUTERMOST decoration still wins
+	// (an outer ERROR over an inner FATAL is ERROR; an outer "uncategorised" over an inner code is uncategorised;
+	// an outer empty hint / detail / constraint hides the inner one: absent or empty, never the inner value)
+	ds = append(ds,
+		decorator{name: "sev(ERROR)", kind: 's', val: "ERROR", apply: func(e error) error { return psqlerr.WithSeverity(e, psqlerr.LevelError) }},
+		decorator{name: "code(XXUUU)", kind: 'c', val: string(codes.Uncategorized), apply: func(e error) error { return psqlerr.WithCode(e, codes.Uncategorized) }},
+		decorator{name: "hint(\"\")", kind: 'h', val: optionalEmpty, apply: func(e error) error { return psqlerr.WithHint(e, "") }},
+		decorator{name: "detail(\"\")", kind: 'd', val: optionalEmpty, apply: func(e error) error { return psqlerr.WithDetail(e, "") }},
+	)
 	// decorations with an empty part: whether an empty value counts as "set" is not asserted
 	// (tolerant expectations), but the message must stay well-formed
 	ds = append(ds,
@@ -55,7 +64,7 @@ func decorators() []decorator {
 	return ds
 }
 
-var errBases = []string{"boom", "é x", strings.Repeat("long message ", 16)}
+var errBases = []string{"boom", "é x", strings.Repeat("long message ", 16), ""}
 
 // buildErr applies the shape (indices into decorators()) to a base error.
 func buildErr(ds []decorator, base string, shape []int) error {
